@@ -110,6 +110,20 @@ def run(tier, seed):
         r = [sum(data[n] * data[n + t] for n in range(len(data) - t)) for t in range(p + 1)]
         if r[0] != 0:
             R.guard("levinson-normal-equations-and-error", {"p": p, "order": None, "r": [str(v) for v in r]}, lambda: lev_case(r, None, p))
+    # the caller's lag list is an input, not a work area: a call with order >= the number of lags, then the default order on the SAME list
+    for kind, mk in (("list", list), ("tuple", tuple)):
+        for extra in (1, 3):
+            def same_list_twice():
+                r0, _ = autocorr_from_ks([F(1, 2), F(-1, 3)], F(2))
+                rr = mk(r0)
+                ok1, why1 = lev_case(rr, len(r0) - 1 + extra, len(r0) - 1)
+                if not ok1:
+                    return False, "first call (order %d on %d lags): %s" % (len(r0) - 1 + extra, len(r0), why1)
+                if list(rr) != list(r0) or len(rr) != len(r0):
+                    return False, "levinson_durbin(order=%d) changed its argument: %r, was %r" % (len(r0) - 1 + extra, [str(v) for v in rr], [str(v) for v in r0])
+                ok2, why2 = lev_case(rr, None, len(r0) - 1)
+                return ok2, "default order after an order-%d call on the same %s: %s" % (len(r0) - 1 + extra, kind, why2)
+            R.guard("levinson-leaves-the-lags-alone-(high-order-then-default-order-on-the-same-object)", {"kind": kind, "extra-order": extra}, same_list_twice)
     # lpc.kautocor: minimises the energy of a * x (zero extended); error == that energy
     for L, p in ((2, 1), (3, 1)):
         x = [Sym.var("x%d" % i) for i in range(L)]
